@@ -9,7 +9,7 @@ mod verif_c19_step {
     // @harness id=C19 tier=quick timeout=2400 mem=12
     // @bounds W=2 H=1, 2 lines (a symbolic number of text lines first, then bar lines), each 0..=4 columns; top alignment; previous frame b in 0..=H rows, any cursor column, parked/unparked start; some bar line does NOT fit into H rows (painting must stop at the first bar that does not fit)
     #[kani::proof]
-    #[kani::unwind(14)]
+    #[kani::unwind(7)]
     //@STUBS widthascii repeat
     fn c19_overflow_w2h1n2() {
         let c = step(2, 1, 2, false, 0, 2);
@@ -20,7 +20,7 @@ mod verif_c19_step {
     // @harness id=C19 tier=quick timeout=2400 mem=12
     // @bounds W=2 H=2, 2 lines (a symbolic number of text lines first, then bar lines), each 0..=4 columns; top alignment; previous frame b in 0..=H rows, any cursor column, parked/unparked start; some bar line does NOT fit into H rows (painting must stop at the first bar that does not fit)
     #[kani::proof]
-    #[kani::unwind(14)]
+    #[kani::unwind(7)]
     //@STUBS widthascii repeat
     fn c19_overflow_w2h2n2() {
         let c = step(2, 2, 2, false, 0, 2);
@@ -30,7 +30,7 @@ mod verif_c19_step {
     // @harness id=C19 tier=quick timeout=2400 mem=12
     // @bounds W=1 H=2, 2 lines (a symbolic number of text lines first, then bar lines), each 0..=2 columns; top alignment; previous frame b in 0..=H rows, any cursor column, parked/unparked start; some bar line does NOT fit into H rows (painting must stop at the first bar that does not fit)
     #[kani::proof]
-    #[kani::unwind(14)]
+    #[kani::unwind(7)]
     //@STUBS widthascii repeat
     fn c19_overflow_w1h2n2() {
         let c = step(1, 2, 2, false, 0, 2);
@@ -40,7 +40,7 @@ mod verif_c19_step {
     // @harness id=C19 tier=quick timeout=2400 mem=12
     // @bounds W=3 H=1, 1 lines (a symbolic number of text lines first, then bar lines), each 0..=6 columns; top alignment; previous frame b in 0..=H rows, any cursor column, parked/unparked start; some bar line does NOT fit into H rows (painting must stop at the first bar that does not fit)
     #[kani::proof]
-    #[kani::unwind(14)]
+    #[kani::unwind(7)]
     //@STUBS widthascii repeat
     fn c19_overflow_w3h1n1() {
         let c = step(3, 1, 1, false, 0, 2);
@@ -50,7 +50,7 @@ mod verif_c19_step {
     // @harness id=C19 tier=quick timeout=2400 mem=12
     // @bounds W=2 H=2, 2 lines (a symbolic number of text lines first, then bar lines), each 0..=4 columns; bottom alignment; previous frame b in 0..=H rows, any cursor column, parked/unparked start; some bar line does NOT fit into H rows (painting must stop at the first bar that does not fit)
     #[kani::proof]
-    #[kani::unwind(14)]
+    #[kani::unwind(7)]
     //@STUBS widthascii repeat
     fn c19_overflow_w2h2n2b() {
         let c = step(2, 2, 2, true, 0, 2);
@@ -60,7 +60,7 @@ mod verif_c19_step {
     // @harness id=C19 tier=thorough timeout=2400 mem=12
     // @bounds W=3 H=2, 3 lines (a symbolic number of text lines first, then bar lines), each 0..=6 columns; top alignment; previous frame b in 0..=H rows, any cursor column, parked/unparked start; some bar line does NOT fit into H rows (painting must stop at the first bar that does not fit)
     #[kani::proof]
-    #[kani::unwind(14)]
+    #[kani::unwind(7)]
     //@STUBS widthascii repeat
     fn c19_overflow_w3h2n3() {
         let c = step(3, 2, 3, false, 0, 2);
@@ -70,7 +70,7 @@ mod verif_c19_step {
     // @harness id=C19 tier=thorough timeout=2400 mem=12
     // @bounds W=2 H=3, 3 lines (a symbolic number of text lines first, then bar lines), each 0..=4 columns; top alignment; previous frame b in 0..=H rows, any cursor column, parked/unparked start; some bar line does NOT fit into H rows (painting must stop at the first bar that does not fit)
     #[kani::proof]
-    #[kani::unwind(14)]
+    #[kani::unwind(7)]
     //@STUBS widthascii repeat
     fn c19_overflow_w2h3n3() {
         let c = step(2, 3, 3, false, 0, 2);
@@ -80,7 +80,7 @@ mod verif_c19_step {
     // @harness id=C19 tier=thorough timeout=2400 mem=12
     // @bounds W=4 H=3, 3 lines (a symbolic number of text lines first, then bar lines), each 0..=8 columns; top alignment; previous frame b in 0..=H rows, any cursor column, parked/unparked start; some bar line does NOT fit into H rows (painting must stop at the first bar that does not fit)
     #[kani::proof]
-    #[kani::unwind(14)]
+    #[kani::unwind(7)]
     //@STUBS widthascii repeat
     fn c19_overflow_w4h3n3() {
         let c = step(4, 3, 3, false, 0, 2);
@@ -90,7 +90,7 @@ mod verif_c19_step {
     // @harness id=C19 tier=thorough timeout=2400 mem=12
     // @bounds W=3 H=2, 3 lines (a symbolic number of text lines first, then bar lines), each 0..=6 columns; bottom alignment; previous frame b in 0..=H rows, any cursor column, parked/unparked start; some bar line does NOT fit into H rows (painting must stop at the first bar that does not fit)
     #[kani::proof]
-    #[kani::unwind(14)]
+    #[kani::unwind(7)]
     //@STUBS widthascii repeat
     fn c19_overflow_w3h2n3b() {
         let c = step(3, 2, 3, true, 0, 2);
